@@ -49,6 +49,17 @@ pub struct GenCfg {
     /// function names drawn from a small shared pool now and then, so that names clash between bases,
     /// between base and derived, and between vftable and impl functions
     pub shared_names: bool,
+    /// n > 0: one program in n gets one or two name-clash perturbations after generation (a
+    /// duplicated or re-declared function, a field / function / case / parameter renamed to a name
+    /// that is already in use or that the backend generates itself). Such a program is no longer
+    /// accepted by construction: checks that use this judge only what pyxis accepts.
+    pub clashes: u64,
+    /// clash perturbations may also rename things (off: only duplicated / re-declared functions and
+    /// members, for checks whose expectations come from the reference model)
+    pub clash_renames: bool,
+    /// the first base may sit behind a gap even when it carries the vftable pointer the derived type
+    /// shares (off: such a base is always at offset 0, which the L2/L3 oracles assume)
+    pub vft_base_anywhere: bool,
 }
 
 impl GenCfg {
@@ -83,6 +94,9 @@ impl GenCfg {
             base_num: 1,
             static_vfuncs: false,
             shared_names: true,
+            clashes: 0,
+            clash_renames: true,
+            vft_base_anywhere: false,
         }
     }
     pub fn layout_only(w: u64) -> GenCfg {
@@ -197,7 +211,7 @@ impl<'t, 'd> Gen<'t, 'd> {
 
     fn sty(&mut self) -> u8 {
         if self.cfg.spellings {
-            (self.t.below(4) as u8) | if self.t.chance(1, 4) { 0x80 } else { 0 }
+            (self.t.below(4) as u8) | if self.t.chance(1, 4) { 0x80 } else { 0 } | if self.t.chance(1, 3) { 0x40 } else { 0 }
         } else {
             0
         }
@@ -596,7 +610,7 @@ impl<'t, 'd> Gen<'t, 'd> {
             let eff_align = if packed { 1 } else { align.max(1) };
             let aligned = (cursor + eff_align - 1) / eff_align * eff_align;
             // the first base that carries the vftable pointer must sit at offset 0
-            let force_zero = is_base && fi == 0 && first_base_has_vft;
+            let force_zero = is_base && fi == 0 && first_base_has_vft && !self.cfg.vft_base_anywhere;
             let gap = if force_zero || !self.t.chance(1, 4) {
                 0
             } else if self.cfg.max_gap >= 64 && self.t.chance(1, 12) {
@@ -891,6 +905,7 @@ impl<'t, 'd> Gen<'t, 'd> {
             used.insert(v);
             let vdoc = if self.t.chance(1, 6) { self.doc(2) } else { vec![] };
             variants.push(Variant {
+                sty: self.sty(),
                 name: format!("V{k}"),
                 value,
                 default: false,
@@ -900,6 +915,7 @@ impl<'t, 'd> Gen<'t, 'd> {
         }
         if variants.is_empty() {
             variants.push(Variant {
+                sty: self.sty(),
                 name: "V0".into(),
                 value: None,
                 default: false,
@@ -907,6 +923,7 @@ impl<'t, 'd> Gen<'t, 'd> {
             });
         }
         let mut e = EnumDef {
+            sty: self.sty(),
             vis: self.vis(),
             name: name.clone(),
             doc: self.doc(3),
@@ -1021,7 +1038,9 @@ impl<'t, 'd> Gen<'t, 'd> {
         let addr = Some(self.num(a));
         let vis = self.vis();
         let doc = if self.t.chance(1, 4) { self.doc(2) } else { vec![] };
+        let sty = self.sty();
         self.prog.mods[m].ext_vals.push(ExtVal {
+            sty,
             vis,
             name,
             ty,
@@ -1091,7 +1110,278 @@ impl<'t, 'd> Gen<'t, 'd> {
                 self.gen_backends(m);
             }
         }
+        if self.cfg.clashes > 0 && self.t.chance(1, self.cfg.clashes) {
+            let n = 1 + self.t.below(2);
+            for _ in 0..n {
+                self.clash_perturb();
+            }
+        }
         (self.prog, self.known, self.repairs)
+    }
+
+    // ------------------------------------------------------------ name clashes
+
+    fn clash_perturb(&mut self) {
+        let kind = self.t.below(if self.cfg.clash_renames { 8 } else { 4 });
+        *self.repairs.entry(format!("clash-kind-{kind}")).or_default() += 1;
+        match kind {
+            0 => self.clash_dup_impl_fn(),
+            1 | 2 => self.clash_redeclare_inherited(),
+            3 => self.clash_duplicate_member(),
+            _ => self.clash_rename(),
+        }
+    }
+
+    /// a second function of the same name in the same impl block
+    fn clash_dup_impl_fn(&mut self) {
+        let sites: Vec<(usize, usize, usize)> = self
+            .prog
+            .mods
+            .iter()
+            .enumerate()
+            .flat_map(|(mi, m)| m.impls.iter().enumerate().flat_map(move |(k, im)| (0..im.funcs.len()).map(move |fi| (mi, k, fi))))
+            .collect();
+        if sites.is_empty() {
+            return;
+        }
+        let (mi, k, fi) = sites[self.t.below(sites.len() as u64) as usize];
+        let mut f = self.prog.mods[mi].impls[k].funcs[fi].clone();
+        let a = self.address();
+        f.addr = Some(self.num(a));
+        if self.t.chance(1, 2) {
+            // an overload: one more parameter
+            f.args.push(Arg::Named("pv_extra".into(), Ty::n("u32")));
+        }
+        self.prog.mods[mi].impls[k].funcs.push(f);
+    }
+
+    /// the derived type declares, with its own address, a function it inherits from a base
+    /// (same name; same signature or one more parameter)
+    fn clash_redeclare_inherited(&mut self) {
+        let mut sites: Vec<(usize, String, Func)> = vec![];
+        for (mi, m) in self.prog.mods.iter().enumerate() {
+            for td in m.types() {
+                for bf in td.fields.iter().filter(|f| f.base) {
+                    let Ty::Named(bn) = &bf.ty else { continue };
+                    // base type in the same module: the signature then reads the same in both scopes
+                    for im in m.impls.iter().filter(|im| &im.ty == bn) {
+                        for f in &im.funcs {
+                            sites.push((mi, td.name.clone(), f.clone()));
+                        }
+                    }
+                    if let Some(bt) = m.types().find(|t| &t.name == bn) {
+                        if let Some(v) = &bt.vft {
+                            for f in &v.funcs {
+                                sites.push((mi, td.name.clone(), f.clone()));
+                            }
+                        }
+                    }
+                }
+            }
+        }
+        if sites.is_empty() {
+            return;
+        }
+        let (mi, tn, mut f) = sites[self.t.below(sites.len() as u64) as usize].clone();
+        let a = self.address();
+        f.addr = Some(self.num(a));
+        f.index = None;
+        f.vis = true;
+        if self.t.chance(1, 4) {
+            f.args.push(Arg::Named("pv_extra".into(), Ty::n("u32")));
+        }
+        match self.prog.mods[mi].impls.iter_mut().find(|im| im.ty == tn) {
+            Some(im) => im.funcs.push(f),
+            None => self.prog.mods[mi].impls.push(Impl { ty: tn, funcs: vec![f] }),
+        }
+    }
+
+    /// two fields / cases / parameters / virtual functions of one name in one item
+    fn clash_duplicate_member(&mut self) {
+        let nm = self.prog.mods.len() as u64;
+        let mi = self.t.below(nm) as usize;
+        let ni = self.prog.mods[mi].items.len() as u64;
+        if ni == 0 {
+            return;
+        }
+        let ii = self.t.below(ni) as usize;
+        let which = self.t.below(3);
+        match &mut self.prog.mods[mi].items[ii] {
+            Item::Enum(e) => {
+                let k = self.t.below(e.variants.len() as u64) as usize;
+                let mut v = e.variants[k].clone();
+                v.value = None;
+                v.default = false;
+                e.variants.push(v);
+            }
+            Item::Type(td) => {
+                if which == 0 {
+                    let named: Vec<usize> = (0..td.fields.len()).filter(|&i| td.fields[i].name != "_" && !td.fields[i].base).collect();
+                    if named.is_empty() {
+                        return;
+                    }
+                    let k = named[self.t.below(named.len() as u64) as usize];
+                    let mut f = td.fields[k].clone();
+                    f.addr = None;
+                    f.ty = Ty::n("u8");
+                    td.fields.push(f);
+                    // keep a declared size out of the way
+                    td.size = None;
+                } else if which == 1 {
+                    if let Some(v) = &mut td.vft {
+                        if v.funcs.is_empty() {
+                            return;
+                        }
+                        let k = self.t.below(v.funcs.len() as u64) as usize;
+                        let mut f = v.funcs[k].clone();
+                        f.index = None;
+                        v.funcs.push(f);
+                        v.size = None;
+                    }
+                } else {
+                    let mut fs: Vec<&mut Func> = vec![];
+                    if let Some(v) = &mut td.vft {
+                        fs.extend(v.funcs.iter_mut());
+                    }
+                    let tn = td.name.clone();
+                    let _ = td;
+                    let mut rest: Vec<&mut Func> = vec![];
+                    std::mem::swap(&mut rest, &mut fs);
+                    drop(fs);
+                    Self::dup_param(self.t, rest, &tn);
+                }
+            }
+        }
+        if which == 2 {
+            // also among the impl functions of the module
+            let fs: Vec<&mut Func> = self.prog.mods[mi].impls.iter_mut().flat_map(|im| im.funcs.iter_mut()).collect();
+            if self.t.chance(1, 2) {
+                Self::dup_param(self.t, fs, "");
+            }
+        }
+    }
+
+    fn dup_param(t: &mut Tape, mut fs: Vec<&mut Func>, _owner: &str) {
+        let cands: Vec<usize> = (0..fs.len()).filter(|&i| fs[i].args.iter().any(|a| matches!(a, Arg::Named(..)))).collect();
+        if cands.is_empty() {
+            return;
+        }
+        let k = cands[t.below(cands.len() as u64) as usize];
+        let dup = fs[k].args.iter().rev().find(|a| matches!(a, Arg::Named(..))).cloned().unwrap();
+        fs[k].args.push(dup);
+    }
+
+    /// give a field, impl function, virtual function, enum case, parameter or extern value a name
+    /// that is already in use somewhere in the program or that the backend generates itself
+    fn clash_rename(&mut self) {
+        let mut names: Vec<String> = ["vftable", "get", "as_ref", "as_mut", "clone", "default", "fmt", "_vfunc_0", "_vfunc_1", "_field_0", "_field_4", "_field_8", "this", "self_", "f", "ptr", "new", "drop", "transmute", "std", "core", "crate_"]
+            .iter()
+            .map(|s| s.to_string())
+            .collect();
+        #[derive(Clone, Copy)]
+        enum Site {
+            Field(usize, usize, usize),
+            ImplFn(usize, usize, usize),
+            VFn(usize, usize, usize),
+            Variant(usize, usize, usize),
+            ImplParam(usize, usize, usize, usize),
+            VParam(usize, usize, usize, usize),
+            ExtVal(usize, usize),
+        }
+        let mut sites: Vec<Site> = vec![];
+        for (mi, m) in self.prog.mods.iter().enumerate() {
+            for (ii, it) in m.items.iter().enumerate() {
+                names.push(it.name().to_string());
+                match it {
+                    Item::Type(td) => {
+                        names.push(format!("{}Vftable", td.name));
+                        for (fi, f) in td.fields.iter().enumerate() {
+                            if f.name != "_" {
+                                names.push(f.name.clone());
+                                names.push(format!("{}_{}", f.name, "shared0"));
+                                // base fields keep their program-wide unique names: the same base field name
+                                // on two levels of a hierarchy is known finding F19
+                                if !f.base {
+                                    sites.push(Site::Field(mi, ii, fi));
+                                }
+                            }
+                        }
+                        if let Some(v) = &td.vft {
+                            for (fi, f) in v.funcs.iter().enumerate() {
+                                names.push(f.name.clone());
+                                sites.push(Site::VFn(mi, ii, fi));
+                                for (ai, a) in f.args.iter().enumerate() {
+                                    if let Arg::Named(n, _) = a {
+                                        names.push(n.clone());
+                                        sites.push(Site::VParam(mi, ii, fi, ai));
+                                    }
+                                }
+                            }
+                        }
+                    }
+                    Item::Enum(e) => {
+                        for (vi, v) in e.variants.iter().enumerate() {
+                            names.push(v.name.clone());
+                            sites.push(Site::Variant(mi, ii, vi));
+                        }
+                    }
+                }
+            }
+            for (k, im) in m.impls.iter().enumerate() {
+                for (fi, f) in im.funcs.iter().enumerate() {
+                    names.push(f.name.clone());
+                    sites.push(Site::ImplFn(mi, k, fi));
+                    for (ai, a) in f.args.iter().enumerate() {
+                        if let Arg::Named(n, _) = a {
+                            names.push(n.clone());
+                            sites.push(Site::ImplParam(mi, k, fi, ai));
+                        }
+                    }
+                }
+            }
+            for (k, ev) in m.ext_vals.iter().enumerate() {
+                names.push(ev.name.clone());
+                names.push(format!("get_{}", ev.name));
+                sites.push(Site::ExtVal(mi, k));
+            }
+        }
+        if sites.is_empty() {
+            return;
+        }
+        names.sort();
+        names.dedup();
+        let site = sites[self.t.below(sites.len() as u64) as usize];
+        let name = names[self.t.below(names.len() as u64) as usize].clone();
+        let set_param = |f: &mut Func, ai: usize, name: String| {
+            if let Arg::Named(n, _) = &mut f.args[ai] {
+                *n = name;
+            }
+        };
+        match site {
+            Site::Field(mi, ii, fi) => {
+                if let Item::Type(td) = &mut self.prog.mods[mi].items[ii] {
+                    td.fields[fi].name = name;
+                }
+            }
+            Site::ImplFn(mi, k, fi) => self.prog.mods[mi].impls[k].funcs[fi].name = name,
+            Site::VFn(mi, ii, fi) => {
+                if let Item::Type(td) = &mut self.prog.mods[mi].items[ii] {
+                    td.vft.as_mut().unwrap().funcs[fi].name = name;
+                }
+            }
+            Site::Variant(mi, ii, vi) => {
+                if let Item::Enum(e) = &mut self.prog.mods[mi].items[ii] {
+                    e.variants[vi].name = name;
+                }
+            }
+            Site::ImplParam(mi, k, fi, ai) => set_param(&mut self.prog.mods[mi].impls[k].funcs[fi], ai, name),
+            Site::VParam(mi, ii, fi, ai) => {
+                if let Item::Type(td) = &mut self.prog.mods[mi].items[ii] {
+                    set_param(&mut td.vft.as_mut().unwrap().funcs[fi], ai, name);
+                }
+            }
+            Site::ExtVal(mi, k) => self.prog.mods[mi].ext_vals[k].name = name,
+        }
     }
 }
 
